@@ -132,6 +132,23 @@ const char *state_class(const Snap &s) {
   return s.size == 0 ? "heap-empty" : s.size <= I::kN ? "heap-le-N" : s.size == s.cap ? "heap-gt-N-full" : "heap-gt-N";
 }
 
+// in-place construction from (key, payload) for class types, from the value for raw arithmetic types
+template <class V, bool A = std::is_arithmetic<typename V::value_type>::value>
+struct Emp {
+  static typename V::value_type &back(V &v, Val x) { return v.emplace_back(x.key, x.pay); }
+  template <class It> static typename V::iterator at(V &v, It pos, Val x) { return v.emplace(pos, x.key, x.pay); }
+  template <class S> static auto set(S &s, Val x) -> decltype(s.emplace(x.key, x.pay)) { return s.emplace(x.key, x.pay); }
+  template <class S, class It> static auto hint(S &s, It h, Val x) -> decltype(s.emplace_hint(h, x.key, x.pay)) { return s.emplace_hint(h, x.key, x.pay); }
+};
+template <class V>
+struct Emp<V, true> {
+  typedef typename V::value_type E;
+  static E &back(V &v, Val x) { return v.emplace_back(Mk<E>::make(x)); }
+  template <class It> static typename V::iterator at(V &v, It pos, Val x) { return v.emplace(pos, Mk<E>::make(x)); }
+  template <class S> static auto set(S &s, Val x) -> decltype(s.emplace(Mk<E>::make(x))) { return s.emplace(Mk<E>::make(x)); }
+  template <class S, class It> static auto hint(S &s, It h, Val x) -> decltype(s.emplace_hint(h, Mk<E>::make(x))) { return s.emplace_hint(h, Mk<E>::make(x)); }
+};
+
 inline std::string vals_str(const std::vector<Val> &v, size_t maxn = 24) {
   std::string o = "[";
   for (size_t i = 0; i < v.size() && i < maxn; ++i) {
